@@ -176,7 +176,7 @@ def c06(tier):
 
 def c10(tier):
     if tier == "quick":
-        return [dict(model="cap", configs=cfgs(["heap8d", "heap0d", "fence8d", "heap1n"], (R,)) + cfgs(["heap3n"], (D,))),
+        return [dict(model="cap", configs=cfgs(["heap8d", "heap0d", "fence8d", "heap1n", "fenceover8d"], (R,)) + cfgs(["heap3n"], (D,))),
                 dict(model="amort", shards=1, configs=cfgs(["heap8n", "fence8d", "heap0d"], (R,)))]
     return [dict(model="cap", configs=cfgs(["heap8d", "heap0d", "heap0n", "heap3n", "heap160", "fence8d", "fence3n", "fence0d", "fence160"], (R, D))),
             dict(model="amort", shards=1, configs=cfgs(["heap8n", "fence8d", "heap0d", "heap160"], (R, D)))]
@@ -191,7 +191,7 @@ def c11(tier):
 def c05(tier):
     if tier == "quick":
         return [dict(model="elem", configs=cfgs(["fence8d", "fence3n", "heap8d"], (R,))), dict(model="range", configs=cfgs(["fence8d"], (R,))),
-                dict(model="shift", configs=cfgs(["fence24d", "fence3n", "fence160"], (R,))), dict(model="cap", configs=cfgs(["fence8d", "fence0d", "heap8d", "heap160"], (R,))),
+                dict(model="shift", configs=cfgs(["fence24d", "fence3n", "fence160"], (R,))), dict(model="cap", configs=cfgs(["fence8d", "fence0d", "heap8d", "heap160", "fenceover8d"], (R,))),
                 rnd(tier, ["fence8d", "fence24d"])]
     return [dict(model="elem", configs=cfgs(["fence8d", "fence3n", "fence24d", "fence160", "fence0d", "heap8d"], (R, D))),
             dict(model="range", configs=cfgs(["fence8d", "fence3n", "fence24d", "fence160", "heap8d"], (R, D))),
@@ -207,7 +207,7 @@ def c18(tier):
 
 def c08(tier):
     if tier == "quick":
-        return [dict(model="clone", configs=cfgs(["heap8c", "fence24d", "heap3c", "heap0c"], (R,))), dict(model="clonefixed", configs=cfgs(["stackn3", "stack8c"], (R,)))]
+        return [dict(model="clone", configs=cfgs(["heap8c", "fence24d", "heap3c", "heap0c", "fenceover3c"], (R,))), dict(model="clonefixed", configs=cfgs(["stackn3", "stack8c"], (R,)))]
     return [dict(model="clone", configs=cfgs(["heap8c", "heap3c", "heap0c", "heap8css", "heap160", "fence24d"], (R, D))),
             dict(model="clonefixed", configs=cfgs(["stackn3", "stack8c"], (R, D)))]
 def c09(tier):
@@ -228,7 +228,7 @@ def c12(tier):
     if tier == "quick":
         return [dict(model="spare", configs=cfgs(["heap8d", "heap3n", "fence160", "heap0d"], (R,))), dict(model="sparefixed", configs=cfgs(["stack24x3", "stackn3"], (R,))),
                 dict(model="elem", configs=cfgs(["heap160a32", "heap64n", "heap1n"], (R,))),
-                dict(model="place", shards=1, configs=cfgs(["heap32d", "heap64n", "stack24x3", "stackn3", "stack16x4", "stack32x4", "empty8d", "fence160"], (R,)))]
+                dict(model="place", shards=1, configs=cfgs(["heap32d", "heap64n", "stack24x3", "stackn3", "stack16x4", "stack32x4", "stack64x2", "empty8d", "fence160"], (R,)))]
     return [dict(model="spare", configs=cfgs(["heap8d", "heap3n", "heap1n", "heap16d", "heap32d", "heap64n", "heap160a32", "fence160", "fence3n", "heap0d"], (R, D))),
             dict(model="sparefixed", configs=cfgs(["stack24x3", "stackn3", "stack8x3p"], (R, D))),
             dict(model="elem", configs=cfgs(["heap160a32", "heap64n", "heap1n", "heap16d", "heap32d"], (R,))),
